@@ -73,6 +73,34 @@ def keyword_part(chk, oracle, jobs):
             okc = bool(hit) and (hit[0][1], hit[0][2]) != (off - len(kw), off)
             chk.violation('completion-range', 'bounded', '%s; public API: completing after %r in %r offers %s (the typed prefix spans %d..%d)' % (v['why'][0], kw, text, hit[:1], off - len(kw), off),
                           {'text': text, 'offset': off}, confirmed=okc)
+        # the other half of the replaced-range mechanism, through the public API: a partially typed name whose prefix spells a keyword
+        # (`use|r`, `case|s`, ...) is a keyword token at that moment; accepting an item must still replace exactly that token
+        nprobe = nbad = 0
+        for n in sorted(syn.KINDS):
+            if not n.endswith('_KW'):
+                continue
+            kw = n[:-3].lower()
+            text = 'fn %sful() { 1 }\nfn main() { %s }\n' % (kw, kw)
+            off = text.rindex(kw) + len(kw)
+            r = oracle.ask('complete', json.dumps({'text': text, 'offsets': [off], 'ranges': True}))
+            if not isinstance(r, dict) or 'complete' not in r:
+                chk.violation('completion-range', 'keywords', 'completion after the keyword-spelled prefix %r in %r: %s' % (kw, text, str(r)[:200]), {'text': text, 'offset': off}, confirmed=True); nbad += 1
+                continue
+            items = (r.get('complete') or [None])[0] or []
+            hit = [i for i in items if i[0] == kw + 'ful']
+            if not hit:
+                continue        # nothing offered in this context: no range to check
+            nprobe += 1
+            if (hit[0][1], hit[0][2]) != (off - len(kw), off):
+                nbad += 1
+                if nbad <= 3:
+                    chk.violation('completion-range', 'keywords', 'completing after the partially typed name %r (a keyword token at that moment) in %r offers %r with the replaced range %d..%d; the identifier being typed spans %d..%d - accepting it yields %r'
+                                  % (kw, text, hit[0][0], hit[0][1], hit[0][2], off - len(kw), off, text[:hit[0][1]] + hit[0][3] + text[hit[0][2]:]), {'text': text, 'offset': off}, confirmed=True)
+            else:
+                chk.validated += 1
+        chk.log('replaced range: %d keyword-spelled prefixes offered a completion, %d with a wrong replaced range' % (nprobe, nbad))
+        if nprobe == 0:
+            chk.inconclusive.append('no keyword-spelled prefix was offered a completion (vacuous probe)')
     finally:
         syn.W.cleanup()
 
@@ -132,7 +160,8 @@ def main(tier, seed):
         'module accessors: ide::completion::complete_expr on its real MIR with the database havoc\'d and one module import (alias symbolic): the module must be looked up under the local accessor the module scope registers (alias, else accessor; C05 kernel) and rendered once; replayed through ide::Analysis::completions on a three-module workspace',
         'kernel claim: Resolver::values_names_in_scope (the separate walk the completion list is built from) contains a name exactly when Resolver::resolve_name finds a non-built-in definition for it, and both give the same definition - '
         'at every identifier position of %d function-body templates, for every assignment of local names and of two module-level names (a function and a constant) from the same pool, so that locals shadow module items' % len(scopes.TEMPLATES),
-        'completion contexts, dot completion (needs inference), rendering and the replaced range need the database and are outside the claim (they are exercised only by the public-API validation of sampled paths)',
+        'replaced range: SyntaxKind::is_keyword decided for all kinds (kernel); natively, for every keyword spelling, completion right after a partially typed name with that spelling must replace exactly that token',
+        'completion contexts, dot completion (needs inference) and rendering need the database and are outside the claim (they are exercised only by the public-API validation of sampled paths)',
         'Gleam rejects duplicate names inside one pattern / parameter list: such assignments are excluded']
     chk.trusted += ['rustc MIR', 'mirsym interpreter + la_arena / SmolStr / IndexMap (association list incl. entry API) / Arc models', 'z3']
     return chk.finish()
@@ -141,6 +170,11 @@ def main(tier, seed):
 def replay(path):
     d = json.load(open(path))
     oracle = native.Oracle(native.build('oracle-ide'))
+    if 'template' not in d.get('cex', {}):
+        c = d['cex']
+        print(json.dumps(oracle.ask('complete', json.dumps({'text': c['text'], 'offsets': [c['offset']], 'ranges': True})))[:2000])
+        oracle.close()
+        return 0
     scopes.load('dev', log=lambda m: None)
     print(native_completions(oracle, d['cex']['template'], d['cex']['names']))
     return 0
